@@ -1,6 +1,6 @@
 (* C18: distances, gradients and wrapping of variable values form a consistent metric.
    Statements only (proofs in ValueProofs.v); all over the real-number instance of the model. *)
-From Coq Require Import ZArith List Bool Reals Lra.
+From Coq Require Import ZArith List Bool Reals Lra Lia.
 From Coquelicot Require Import Coquelicot.
 From CV Require Import Base.Num Base.RNum C18.ValueModel C18.ValueProofs C18.GradProofs C18.ExtraProofs.
 Import ListNotations.
@@ -213,6 +213,8 @@ Theorem C18_vector_grad_is_derivative : forall (l1 l2 : list R) (i : nat), lengt
   is_derive (fun t => vec_dist2 Rops (upd l1 i t) l2) (nth i l1 0) (nth i (vec_grad Rops l1 l2) 0).
 Proof. exact vec_grad_derive. Qed.
 Print Assumptions C18_vector_grad_is_derivative.
+Example C18_example_vector_index : length [1; 2] = length [3; 4] /\ (1 < length [1; 2])%nat.
+Proof. cbn. split; [reflexivity | lia]. Qed.
 
 (* ---- apply_constraints: lands on the manifold, fixes the manifold pointwise, idempotent ---- *)
 Theorem C18_apply_constraints : forall (v : vec3) (q : quat),
@@ -245,6 +247,26 @@ Theorem C18_interpolate_unit_defined_on_manifold : forall (a b : vec3) (l : R),
   (uv_interp_undefined Rops a b l = false -> is_unit (uv_interp Rops a b l)).
 Proof. intros a b l. split; [apply uv_interp_is_constrain | apply uv_interp_defined_unit]. Qed.
 Print Assumptions C18_interpolate_unit_defined_on_manifold.
+(* the implementation's undefined-result test passes (no error) half-way between two perpendicular quaternions *)
+Example C18_example_q_interp_defined : q_interp_undefined Rops PI (1, 0, 0, 0) (0, 1, 0, 0) (1 / 2) = false.
+Proof.
+  unfold q_interp_undefined. apply negb_false_iff. cbn [nleb ndiv nsqrt Rops]. apply Rleb_true.
+  assert (En : qnorm2 Rops (q_lin Rops (1, 0, 0, 0) (0, 1, 0, 0) (1 / 2)) = 1 / 2)
+    by (unfold qnorm2, qdot, q_lin, qadd, qscale; cbn; field).
+  assert (Ed : q_dist2 Rops PI (1, 0, 0, 0) (0, 1, 0, 0) = (PI / 2) * (PI / 2)).
+  { rewrite q_dist2_qd2. assert (qdot Rops (1, 0, 0, 0) (0, 1, 0, 0) = 0) as -> by (unfold qdot; cbn; ring).
+    unfold qd2. replace (Rltb 0 0) with false by (symmetry; apply Rltb_false; lra).
+    rewrite clamp1_id by lra. rewrite acos_0. field. }
+  rewrite En, Ed. pose proof PI_RGT_0 as Hp. pose proof PI_4 as Hp4.
+  rewrite sqrt_square by lra.
+  assert (H1 : 1 / 2 <= sqrt (1 / 2)).
+  { replace (1 / 2) with (sqrt (1 / 4)) at 1 by (replace (1 / 4) with ((1 / 2) * (1 / 2)) by lra; apply sqrt_square; lra).
+    apply sqrt_le_1; lra. }
+  unfold tiny6; cbn [ndiv n1 nofZ Rops].
+  apply Rle_trans with ((1 / 2) / 2); [lra|].
+  unfold Rdiv at 1 3. apply Rmult_le_compat; try lra.
+  apply Rinv_le_contravar; lra.
+Qed.
 Example C18_example_q_lin_nonzero : qnorm2 Rops (q_lin Rops (1, 0, 0, 0) (0, 1, 0, 0) (1 / 2)) <> 0.
 Proof. unfold qnorm2, qdot, q_lin, qadd, qscale; cbn. lra. Qed.
 
@@ -344,6 +366,8 @@ Theorem C18_opes_merged_centre_equivalent : forall (c P h1 k1 h2 k2 : R) (n m : 
   c - P / 2 <= opes_merge_center Rops c P h1 k1 h2 k2 < c + P / 2.
 Proof. intros c P h1 k1 h2 k2 n m HP Hh. split; [apply opes_merge_center_period; assumption | apply opes_merge_center_range; exact HP]. Qed.
 Print Assumptions C18_opes_merged_centre_equivalent.
+Example C18_example_opes : 0 < 360 /\ 1 + 2 <> 0.
+Proof. split; lra. Qed.
 (* interpolation of a periodic scalar is plain linear interpolation (it does not take the shortest image): behaviour, see NOTES.md *)
 Theorem C18_periodic_interpolation_is_linear : exists P x0 x1 l : R, 0 < P /\ 0 <= l <= 1 /\
   per_dist2 Rops P x1 x0 < per_dist2 Rops P (sc_interp Rops x0 x1 l) x0.
